@@ -673,7 +673,16 @@ class Class(Node):
                                 # Search within the package
                                 try:
                                     # Avoid infinite recursion with search_imports = False
-                                    c = self._find_class(imported_comp_ref, search_imports=False)
+                                    imported_class = self._find_class(
+                                        imported_comp_ref, search_imports=False
+                                    )
+                                    if component_ref.child:
+                                        # The rest of a dotted name is looked up inside
+                                        # the imported class
+                                        imported_class = imported_class._find_class(
+                                            component_ref.child[0], False
+                                        )
+                                    c = imported_class
                                     found_comp_ref = imported_comp_ref
                                 except (KeyError, ClassNotFoundError):
                                     pass
